@@ -239,12 +239,16 @@ func workers() int {
 
 // runProp is the coordinator: a pool of worker processes per family, merged
 // report, known-findings filter, evidence, VIOLATION / KNOWN-FINDING lines.
+// curT is the test of the running property check (for Extra sub-checks that need a testing.T).
+var curT *testing.T
+
 func runProp(t *testing.T, id string) {
 	p := props[id]
 	if p == nil {
 		t.Fatalf("unknown property %s", id)
 	}
 	start := time.Now()
+	curT = t
 	fams := p.Families(mc.Tier())
 	reports := make([]*mc.Report, len(fams))
 	errs := make([]string, len(fams))
